@@ -262,9 +262,9 @@ def r_slot_fresh(F, V):
                 if not src_blocks:
                     reach = _reach_after(body, m)
                 else:
-                    reach = set()
-                    for s in body.nsucc[m]:
-                        reach |= body.reachable_from(s, tuple(src_blocks))
+                    # (not following edges that contradict a flag the body sets itself, e.g. the `true` an inlined helper returns
+                    # exactly when it has grown the table)
+                    reach = body.reachable_from_flags(m, tuple(src_blocks))
                 if c in reach and any(m in _reach_after(body, sb) or not src_blocks for sb in src_blocks or [None]):
                     bad = (m, mcp)
             if bad:
@@ -351,7 +351,9 @@ def r_bucket_fresh(F, V):
                                     changed = True
             bad = None
             for (m, mcp) in movers:
-                after = _reach_after(body, m)
+                # blocks that can run after the mover WITHOUT the lookup itself running again in between (in a loop the next
+                # iteration's lookup yields a fresh bucket)
+                after = body.reachable_from_flags(m, (i,))
                 for bi in after:
                     blk = body.blocks[bi]
                     uses = []
@@ -464,8 +466,12 @@ def r_reserve_guard(F, V):
                 key = "raw::RawTable::insert|reserve"
                 gl = emp = False
                 for (bb, s, S) in controlling_sources(b, i):
-                    if S.has_load("growth_left") and "Eq" in S.binops and any(c.get("val") == 0 for c in S.consts):
-                        gl = True
+                    if S.has_load("growth_left") and ({"Eq", "Ne"} & S.binops) and any(c.get("val") == 0 for c in S.consts):
+                        # the edge taken towards reserve is the one on which growth_left == 0 (however the test is spelled:
+                        # `growth_left == 0 && ..`, `!(.. || growth_left != 0)`)
+                        rel = _relation(b, bb, s, lambda Sx: Sx.has_load("growth_left"), lambda Sx: any(c.get("val") == 0 for c in Sx.consts) and not Sx.loads)
+                        if rel in (None, "=="):
+                            gl = True
                     if S.has_call("Tag::special_is_empty"):
                         emp = True
                 if gl and emp:
